@@ -75,6 +75,15 @@ def _validate_valid_identifiers(nodes: dict[str, HyperNode]) -> None:
         # GraphNode names use graph name validation (allows hyphens); their
         # output names are ordinary value names and are checked like any other
         if isinstance(node, GraphNode):
+            # as_node() rejects the path separators itself; with_name() does not
+            for char in sorted(GraphNode._RESERVED_CHARS):
+                if char in node.name:
+                    raise GraphConfigError(
+                        f"Invalid node name: '{node.name}'\n\n"
+                        f"  -> Nested graph node names cannot contain '{char}'\n\n"
+                        f"How to fix:\n"
+                        f"  Use underscores or hyphens instead"
+                    )
             _validate_output_identifiers(node)
             continue
         if not node.name.isidentifier():
